@@ -59,6 +59,10 @@ FACTS, ALLEXT = world_facts()
 rt.EXT_NAMES[:] = ALLEXT
 
 
+def _num(v):
+    return isinstance(v, (int, float)) and not isinstance(v, bool)
+
+
 def ovr_fn(ovr, focus_key):
     """Override function of the captured context described by ovr; returns value or ABSENT (decline)."""
     k = ovr["k"]
@@ -67,11 +71,11 @@ def ovr_fn(ovr, focus_key):
         if k == "const":
             return ovr["c"]
         if k == "addkey":
-            if ovr["key"] in rec:
+            if ovr["key"] in rec and _num(rec[ovr["key"]]):
                 return rec[ovr["key"]] + ovr["n"]
             return ABSENT
         if k == "iflt":
-            return ovr["c"] if rec[focus_key] < ovr["n"] else ABSENT
+            return ovr["c"] if _num(rec[focus_key]) and rec[focus_key] < ovr["n"] else ABSENT
         if k == "samefloat":
             v = rec[focus_key]
             if isinstance(v, (int, float)) and not isinstance(v, bool) and 0 <= v < 100000:
@@ -162,7 +166,7 @@ def run_probe(case):
                 def log(data, hid=hid):
                     rt.LOG.append(("dlv", hid, plain_rec(data)))
                 p.subscribe(log)
-                p.filter(lambda data, fk=fk, n=h["ovr"]["n"]: data[fk] < n).override(h["ovr"]["c"])
+                p.filter(lambda data, fk=fk, n=h["ovr"]["n"]: _num(data[fk]) and data[fk] < n).override(h["ovr"]["c"])
             else:
                 def setter(data, hid=hid, fn=fn):
                     rt.LOG.append(("dlv", hid, plain_rec(data)))
